@@ -38,6 +38,9 @@ class C07(PropBase):
 
     def random_cases(self, rnd, n):
         for i in range(n):
+            if i < 6 or i % 400 == 7:
+                yield self.bigbulk_case(rnd)
+                continue
             if i % 2 == 1:
                 yield self.readd_case(rnd)
                 continue
@@ -78,6 +81,33 @@ class C07(PropBase):
                      else [rnd.choice(pool) for _ in range(rnd.randint(1, 3))])
                 h.insert(rnd.randint(0, len(h)), ('bulk', 0, kind, None, None, l))
             yield c
+
+    def bigbulk_case(self, rnd):
+        """a LARGE bulk call (hundreds of pairs over ~100 instants, tens of thousands of per-instant updates) rejected at an element in
+        the middle: the state must be exactly the one after the preceding elements (snapshot ids and counts included)"""
+        directed = rnd.random() < 0.4
+        removal = rnd.random() < 0.8
+        n = rnd.randint(180, 320)
+        t = rnd.randint(0, 5)
+        e = t + rnd.randint(95, 130)
+        bad = rnd.randint(2, n - 2)
+        kind = rnd.choice(['from', 'star', 'fstar', 'path', 'fpath'])
+        h = [('add', 0, 1, 2, rnd.randint(0, 4), None)]
+        if kind in ('from',):
+            l = [(1000 + k, 2000 + k) for k in range(n)]
+            u, v = l[bad]
+        elif kind in ('star', 'fstar'):
+            l = [500] + [1000 + k for k in range(n)]
+            u, v = 500, l[bad]
+        else:
+            l = [1000 + k for k in range(n)]
+            u, v = l[bad], l[bad + 1]
+        # the pair of the failing element already has a later run
+        h.append(('add', 0, u, v, t + rnd.randint(3, 200), None))
+        h.append(('bulk', 0, kind, t, (e if kind in ('from', 'fstar', 'fpath') else None), l))
+        h.append(('add', 0, 1, 2, e + 3, None))
+        return dict(directed=directed, removal=removal, hist=h, classes=['big_bulk_rejected'], family=rnd.choice(['int', 'int', 'str']),
+                    functional=0)
 
     def readd_case(self, rnd):
         """dense histories over two pairs and few instants in which a pair that has moved on to a later run is given one
